@@ -3,4 +3,5 @@ package checks
 
 import (
 	_ "verif/harness/internal/c07"
+	_ "verif/harness/internal/c13"
 )
